@@ -336,4 +336,7 @@ def latejoin_scenarios(failing=False):
     return out
 
 
+#: eager notifications: observers (then helper threads) run as soon as they can
+POL_EAGER = ("P:observer,thread,loop,job,main", "P:observer,thread,job,loop,main")
+
 POL_ORDER = ("FIFO", "FIFO+rev", "JOBS", "JOBS+rev", "LIFO", "LIFO+rev")
